@@ -70,7 +70,7 @@ def read_jsonl(path):
     return out
 
 
-def run_shards(binary, cmd, jobs, wd, tag, wall_timeout=3600, max_restarts=8, resumable=True):
+def run_shards(binary, cmd, jobs, wd, tag, wall_timeout=3600, max_restarts=8, resumable=True, max_hangs_total=32):
     """Run one harness process per job (each job a dict with a 'cases' list), at most NCPU at a time.
     A process that exits with code 3 (watchdog HANG) is restarted after the hanging case.
     Returns (events, meta) where meta counts hangs / inconclusive shards."""
@@ -119,7 +119,7 @@ def run_shards(binary, cmd, jobs, wd, tag, wall_timeout=3600, max_restarts=8, re
                 evs = read_jsonl(r['op'])
                 begun = [e for e in evs if e.get('ev') == 'begin']
                 last = begun[-1]['case_idx'] if begun else -1
-                if state[r['i']]['restarts'] < max_restarts and last + 1 < len(r['job']['cases']):
+                if state[r['i']]['restarts'] < max_restarts and meta['hangs'] <= max_hangs_total and last + 1 < len(r['job']['cases']):
                     state[r['i']]['restarts'] += 1
                     meta['restarts'] += 1
                     still.append(launch(r['i'], r['job'], last + 1, True))
